@@ -115,7 +115,13 @@ pub fn exec(case: &Value) -> Vec<Value> {
 pub fn gen(seed: u64, n: usize) -> Vec<Value> {
     let mut rng = ChaCha8Rng::seed_from_u64(seed);
     (0..n)
-        .map(|_| {
+        .map(|i| {
+            // one corpus per run has word and pair frequencies beyond 16 bits (the close runner-up must not win)
+            if i == 5 {
+                let f = rng.random_range(66000..=70000usize);
+                return json!({"words": [[1, 2], [3, 1], [2, 2, 3]], "freqs": [f, f - 1, 3], "num_merges": 3, "per_line": 40, "seed": rng.random::<u32>(),
+                              "threads": [1, 3], "norm": true, "alpha": "abcd", "files": 2, "max_lines": 0, "blanks": 0});
+            }
             let nw = rng.random_range(1..=6);
             let na = rng.random_range(1..=3u64);
             let words: Vec<Vec<u64>> = (0..nw).map(|_| (0..rng.random_range(1..=7)).map(|_| rng.random_range(1..=na)).collect()).collect();
